@@ -911,7 +911,20 @@ func (w *vfC01World) actRead(rt *rapid.T) {
 	u := w.users[q.user]
 	since := SequenceID{}
 	if u != nil && len(u.tokens) > 0 && rapid.IntRange(0, 3).Draw(rt, "fromToken") > 0 {
-		since = u.tokens[rapid.IntRange(0, len(u.tokens)-1).Draw(rt, "token")]
+		pool := u.tokens
+		if !w.strict && rapid.Bool().Draw(rt, "preferCompound") {
+			// back-fill rows carry triggered-by tokens; they are rare in the pool, so ask for them
+			var comp []SequenceID
+			for _, tk := range u.tokens {
+				if tk.TriggeredBy != 0 || tk.LowSeq != 0 {
+					comp = append(comp, tk)
+				}
+			}
+			if len(comp) > 0 {
+				pool = comp
+			}
+		}
+		since = pool[rapid.IntRange(0, len(pool)-1).Draw(rt, "token")]
 	} else if u == nil && rapid.Bool().Draw(rt, "adminToken") {
 		// the admin resumes from positions any response handed out
 		var pool []SequenceID
